@@ -1309,6 +1309,12 @@ class Interp(object):
                 base[n] = v
                 return
             raise Unanalysable('index assign on %s' % type(base).__name__)
+        if k == 'tuple':
+            if not isinstance(v, tuple) or len(v) != len(l['elems']):
+                raise Unanalysable('destructuring assignment shape')
+            for sub, x in zip(l['elems'], v):
+                self.assign(sub, x, frame)
+            return
         if k == 'un' and l['op'] == '*':
             inner = l['e']
             tgt = self.eval(inner, frame)
@@ -1439,8 +1445,15 @@ class Interp(object):
             return list(a[0])
         if head in ('HashMap', 'BTreeMap') and last == 'new':
             return {}
-        if head == 'String' and last == 'new':
+        if head == 'String' and last in ('new', 'with_capacity'):
             return ''
+        if head == 'char' and last == 'from_digit':
+            d, r = as_num(a[0]), as_num(a[1])
+            return Opt(Char('0123456789abcdefghijklmnopqrstuvwxyz'[d])) if d < r else NONE
+        if head == 'char' and last == 'from_u32':
+            return Opt(Char(chr(as_num(a[0]))))
+        if head == 'char' and last == 'from':
+            return Char(chr(as_num(a[0])))
         if head == 'String' and last == 'from':
             return self.display(a[0])
         if head == 'Regex' and last == 'new':
@@ -1460,8 +1473,11 @@ class Interp(object):
         if head in FLOAT_TYPES and last == 'from':
             return float(as_num(a[0]))
         if head in INT_RANGES and last in ('from', 'try_from'):
-            v = self.coerce(RInt(as_num(a[0])), head)
-            return v if last == 'from' else Res(v, True)
+            n = as_num(a[0]) if not isinstance(a[0], (bool, Char)) else (int(a[0]) if isinstance(a[0], bool) else ord(a[0].c))
+            lo, hi = INT_RANGES[head]
+            if last == 'try_from':
+                return Res(RInt(n, head), True) if lo <= n <= hi else Res('out of range integral type conversion attempted', False)
+            return self.coerce(RInt(n), head)
         if head == 'Some':
             return Opt(a[0])
         if head == 'Option' and last == 'Some':
@@ -1668,6 +1684,12 @@ class Interp(object):
             if d < 0 or d >= r:
                 return NONE
             return Opt(RInt(d, 'u32'))
+        if name in ('is_alphabetic', 'is_ascii_alphabetic'):
+            return c.c.isalpha()
+        if name in ('is_ascii_hexdigit',):
+            return c.c in '0123456789abcdefABCDEF'
+        if name == 'len_utf8':
+            return RInt(len(c.c.encode('utf-8')), 'usize')
         if name == 'is_ascii_digit' or name == 'is_numeric':
             return c.c.isdigit()
         if name in ('clone',):
@@ -1683,6 +1705,8 @@ class Interp(object):
             return self.display(b)
         if name == 'then_some':
             return Opt(a[0]) if b else NONE
+        if name == 'then':
+            return Opt(self.call_value(a[0], [])) if b else NONE
         raise Unanalysable('bool method %s' % name)
 
     def m_RInt(self, x, name, a, hint, tf, ln):
@@ -1734,6 +1758,23 @@ class Interp(object):
                 lo, hi = INT_RANGES[t]
                 v = max(lo, min(hi, v))
             return RInt(v, t)
+        if name == 'abs_diff':
+            return RInt(abs(x.v - as_num(a[0])), 'usize' if t in ('isize', 'usize') else t)
+        if name == 'try_into':
+            ty = None
+            if tf:
+                ty = norm_ty(tf[0])
+            elif hint:
+                head, gs = split_generic(hint)
+                ty = norm_ty(gs[0]) if head == 'Result' and gs else norm_ty(hint)
+            if ty in INT_RANGES:
+                lo, hi = INT_RANGES[ty]
+                if lo <= x.v <= hi:
+                    return Res(RInt(x.v, ty), True)
+                return Res('out of range integral type conversion attempted', False)
+            raise Unanalysable('integer try_into needs the target type (line %s)' % ln)
+        if name == 'leading_zeros' or name == 'count_ones':
+            raise Unanalysable('bit counting')
         if name == 'is_positive':
             return x.v > 0
         if name == 'is_negative':
@@ -1909,6 +1950,49 @@ class Interp(object):
             return UNIT
         if name == 'eq':
             return self.values_equal(l, a[0])
+        if name == 'binary_search':
+            key = self.ordkey(a[0])
+            lo, hi = 0, len(l)
+            while lo < hi:
+                mid = (lo + hi) // 2
+                k = self.ordkey(l[mid])
+                if k == key:
+                    return Res(RInt(mid, 'usize'), True)
+                if k < key:
+                    lo = mid + 1
+                else:
+                    hi = mid
+            return Res(RInt(lo, 'usize'), False)
+        if name == 'windows':
+            n = as_num(a[0])
+            return Iter([l[i:i + n] for i in range(0, len(l) - n + 1)])
+        if name in ('chunks', 'chunks_exact'):
+            n = as_num(a[0])
+            out = [l[i:i + n] for i in range(0, len(l), n)]
+            if name == 'chunks_exact' and out and len(out[-1]) < n:
+                out.pop()
+            return Iter(out)
+        if name == 'split_first':
+            return Opt((l[0], l[1:])) if l else NONE
+        if name == 'split_last':
+            return Opt((l[-1], l[:-1])) if l else NONE
+        if name == 'starts_with':
+            return len(l) >= len(a[0]) and all(self.values_equal(x, y) for x, y in zip(l, a[0]))
+        if name == 'retain':
+            l[:] = [x for x in l if self.call_value(a[0], [x])]
+            return UNIT
+        if name == 'drain':
+            out = list(l)
+            del l[:]
+            return Iter(out)
+        if name == 'iter_rev':
+            return Iter(l[::-1])
+        if name == 'resize':
+            n = as_num(a[0])
+            while len(l) < n:
+                l.append(deep_copy(a[1]))
+            del l[n:]
+            return UNIT
         raise Unanalysable('Vec method %s (line %s)' % (name, ln))
 
     def m_Iter(self, it, name, a, hint, tf, ln):
@@ -2005,6 +2089,70 @@ class Interp(object):
                 return NONE
             f = min if name == 'min' else max
             return Opt(f(rest, key=self.ordkey))
+        if name == 'product':
+            s = 1
+            for x in rest:
+                s *= as_num(x)
+            return RInt(s, rest[0].t if rest and isinstance(rest[0], RInt) else None) if not any(isinstance(x, float) for x in rest) else float(s)
+        if name in ('min_by_key', 'max_by_key'):
+            if not rest:
+                return NONE
+            f = min if name == 'min_by_key' else max
+            keyed = [(self.ordkey(self.call_value(a[0], [x])), i) for i, x in enumerate(rest)]
+            if name == 'max_by_key':
+                best = max(keyed, key=lambda k: (k[0], k[1]))
+            else:
+                best = min(keyed, key=lambda k: (k[0], k[1]))
+            return Opt(rest[best[1]])
+        if name == 'flat_map':
+            out = []
+            for x in rest:
+                out.extend(self.iterate(self.call_value(a[0], [x])))
+            return Iter(out)
+        if name == 'flatten':
+            out = []
+            for x in rest:
+                out.extend(self.iterate(x))
+            return Iter(out)
+        if name == 'take_while':
+            out = []
+            for x in rest:
+                if not self.call_value(a[0], [x]):
+                    break
+                out.append(x)
+            return Iter(out)
+        if name == 'skip_while':
+            i = 0
+            while i < len(rest) and self.call_value(a[0], [rest[i]]):
+                i += 1
+            return Iter(rest[i:])
+        if name == 'map_while':
+            out = []
+            for x in rest:
+                r = self.call_value(a[0], [x])
+                if not r.some:
+                    break
+                out.append(r.v)
+            return Iter(out)
+        if name == 'find_map':
+            for x in rest:
+                r = self.call_value(a[0], [x])
+                if r.some:
+                    return r
+            return NONE
+        if name == 'rposition':
+            for i in range(len(rest) - 1, -1, -1):
+                if self.call_value(a[0], [rest[i]]):
+                    return Opt(RInt(i, 'usize'))
+            return NONE
+        if name == 'unzip':
+            return ([x[0] for x in rest], [x[1] for x in rest])
+        if name == 'inspect':
+            return it
+        if name == 'scan':
+            raise Unanalysable('Iterator::scan')
+        if name == 'try_fold':
+            raise Unanalysable('Iterator::try_fold')
         if name == 'for_each':
             for x in rest:
                 self.call_value(a[0], [x])
@@ -2049,6 +2197,24 @@ class Interp(object):
             return Opt(self.call_value(a[0], [o.v])) if o.some else NONE
         if name == 'and_then':
             return self.call_value(a[0], [o.v]) if o.some else NONE
+        if name == 'map_or':
+            return self.call_value(a[1], [o.v]) if o.some else a[0]
+        if name == 'map_or_else':
+            return self.call_value(a[1], [o.v]) if o.some else self.call_value(a[0], [])
+        if name == 'is_some_and':
+            return o.some and bool(self.call_value(a[0], [o.v]))
+        if name == 'is_none_or':
+            return (not o.some) or bool(self.call_value(a[0], [o.v]))
+        if name == 'or_else':
+            return o if o.some else self.call_value(a[0], [])
+        if name == 'xor':
+            return o if (o.some and not a[0].some) else (a[0] if (a[0].some and not o.some) else NONE)
+        if name == 'zip':
+            return Opt((o.v, a[0].v)) if (o.some and a[0].some) else NONE
+        if name == 'into_iter':
+            return Iter([o.v] if o.some else [])
+        if name == 'contains':
+            return o.some and self.values_equal(o.v, a[0])
         if name in ('clone', 'as_ref', 'as_mut', 'cloned', 'copied', 'as_deref', 'borrow', 'iter', 'into'):
             return Opt(deep_copy(o.v)) if (o.some and name == 'clone') else o
         if name == 'ok_or':
@@ -2095,6 +2261,18 @@ class Interp(object):
             return self.call_value(a[0], [r.v]) if r.ok else r
         if name in ('clone', 'as_ref'):
             return r
+        if name == 'map_or':
+            return self.call_value(a[1], [r.v]) if r.ok else a[0]
+        if name == 'map_or_else':
+            return self.call_value(a[1], [r.v]) if r.ok else self.call_value(a[0], [r.v])
+        if name == 'is_ok_and':
+            return r.ok and bool(self.call_value(a[0], [r.v]))
+        if name == 'or_else':
+            return r if r.ok else self.call_value(a[0], [r.v])
+        if name == 'unwrap_or_default':
+            if r.ok:
+                return r.v
+            raise Unanalysable('unwrap_or_default')
         raise Unanalysable('Result method %s (line %s)' % (name, ln))
 
     def m_dict(self, d, name, a, hint, tf, ln):
